@@ -66,9 +66,9 @@ func (h *recHandler) ServeNostr(ctx context.Context, send chan<- mocrelay.Server
 			h.received = append(h.received, m)
 			nth := len(h.received)
 			h.mu.Unlock()
-			if c, ok := m.(*mocrelay.ClientCountMsg); ok && c.SubscriptionID == sentinelSub {
+			if c, ok := m.(*mocrelay.ClientCountMsg); ok && (c.SubscriptionID == sentinelSub || c.SubscriptionID == mwSentinel) {
 				select {
-				case send <- mocrelay.NewServerCountMsg(sentinelSub, 0, nil):
+				case send <- mocrelay.NewServerCountMsg(c.SubscriptionID, 0, nil):
 				case <-ctx.Done():
 					return ctx.Err()
 				}
